@@ -74,4 +74,11 @@ PROPS = {
         trusted_base=TB_COMMON + ["Model/Security.lean NASEncrypt/NASMacCalculate mirror the Go guard sequence and switch; tied by the correspondence run over the (algorithm, bearer, direction, payload) grid"],
         rule="grid of algorithm ids (all 256) x bearers x directions x payloads (nil, empty, 1 octet, random) + every payload length 0..70 per algorithm + random lengths to 1500; oracle evaluates involution, prefix stability (every prefix), plaintext independence, validation, NULL algorithms, MAC length on the real code",
     ),
+    "C20": dict(
+        level="proof", modules=["NasVerif.Props.C20"], parts=[],
+        streams=[("idgen", 2000, 20000)], oracle="C20",
+        trusted_base=TB_COMMON[:1] + ["hand-written Model/IdGen.lean mirrors UPSC_Generator.go (map = list of live offsets; scan loops with fuel = range size + adequacy lemma); tied by the correspondence run over operation histories",
+                                        "int64 overflow not modelled (small ranges); Allocate_inRange arguments non-negative (a negative argument yields a negative Go remainder: outside the property, see DESIGN G1)"],
+        rule="all op sequences up to depth 5 (thorough 6, sampled beyond depth 3 in quick) over ranges of size 1..3 (thorough 4) at three minimum values, alphabet = allocate / free of every id in and just outside the range / range allocations; plus random histories of up to 40 ops on ranges up to 12; non-trivial = distinct history executed",
+    ),
 }
